@@ -458,3 +458,107 @@ Proof.
     rewrite ?L; cbv iota;
     rewrite ?andb_true_iff, ?Z.leb_le; try lia.
 Qed.
+
+(* ------------------------------------------------------------------ statements at the call level *)
+From Coq Require QArith.
+
+Definition dec (z : Z) : value := VExt (EDecimal z).
+Definition dtv (z : Z) : value := VExt (EDatetime z).
+Definition durv (z : Z) : value := VExt (EDuration z).
+
+Lemma decimal_ctor_call s :
+  call_xfn (s2str "decimal") [VString s] =
+  match decimal_parse s with Some v => Ok (dec v) | None => Err ErrExt end.
+Proof. unfold call_xfn. cbn. unfold from_str. cbn. destruct (decimal_parse s); reflexivity. Qed.
+
+(* a decimal with representation z denotes the rational z / 10^4 *)
+Definition dec_rat (z : Z) : QArith_base.Q := QArith_base.Qmake z 10000.
+
+Lemma decimal_cmp_rational x y :
+  call_xfn (s2str "lessThan") [dec x; dec y] = Ok (VBool (x <? y)) /\
+  call_xfn (s2str "lessThanOrEqual") [dec x; dec y] = Ok (VBool (x <=? y)) /\
+  call_xfn (s2str "greaterThan") [dec x; dec y] = Ok (VBool (x >? y)) /\
+  call_xfn (s2str "greaterThanOrEqual") [dec x; dec y] = Ok (VBool (x >=? y)) /\
+  ((x <? y) = true <-> QArith_base.Qlt (dec_rat x) (dec_rat y)) /\
+  ((x <=? y) = true <-> QArith_base.Qle (dec_rat x) (dec_rat y)) /\
+  ((x >? y) = true <-> QArith_base.Qlt (dec_rat y) (dec_rat x)) /\
+  ((x >=? y) = true <-> QArith_base.Qle (dec_rat y) (dec_rat x)).
+Proof.
+  repeat split; try reflexivity; unfold QArith_base.Qlt, QArith_base.Qle, dec_rat; cbn [QArith_base.Qnum QArith_base.Qden];
+    rewrite ?Z.ltb_lt, ?Z.leb_le, ?Z.gtb_lt, ?Z.geb_le; lia.
+Qed.
+
+Lemma offset_call t d :
+  call_xfn (s2str "offset") [dtv t; durv d] =
+  if in_i64 (t + d) then Ok (dtv (t + d)) else Err ErrExt.
+Proof. unfold call_xfn. cbn. unfold dt_offset. destruct (in_i64 (t + d)); reflexivity. Qed.
+
+Lemma duration_since_call a b :
+  call_xfn (s2str "durationSince") [dtv a; dtv b] =
+  if in_i64 (a - b) then Ok (durv (a - b)) else Err ErrExt.
+Proof. unfold call_xfn. cbn. unfold dt_duration_since. destruct (in_i64 (a - b)); reflexivity. Qed.
+
+Lemma to_date_call t :
+  in_i64 t = true ->
+  let day_start := day_ms * (t / day_ms) in
+  day_start <= t < day_start + day_ms /\
+  call_xfn (s2str "toDate") [dtv t] =
+  if i64_min <=? day_start then Ok (dtv day_start) else Err ErrExt.
+Proof.
+  intros Ht. destruct (dt_to_date_exact t Ht) as [B E]. cbv zeta in *. split; [exact B|].
+  change (call_xfn (s2str "toDate") [dtv t]) with (do r <- ext_or (dt_to_date t); Ok (VExt (EDatetime r))).
+  rewrite E. destruct (i64_min <=? day_ms * (t / day_ms)); reflexivity.
+Qed.
+
+Lemma to_time_call t :
+  call_xfn (s2str "toTime") [dtv t] = Ok (durv (t mod day_ms)) /\ 0 <= t mod day_ms < day_ms.
+Proof.
+  destruct (dt_to_time_exact t) as [E B]. rewrite E in B. split; [|exact B].
+  change (call_xfn (s2str "toTime") [dtv t]) with (Ok (durv (dt_to_time t))). rewrite E. reflexivity.
+Qed.
+
+Lemma duration_to_calls ms :
+  in_i64 ms = true ->
+  call_xfn (s2str "toMilliseconds") [durv ms] = Ok (VLong ms) /\
+  call_xfn (s2str "toSeconds") [durv ms] = Ok (VLong (Z.quot ms 1000)) /\
+  call_xfn (s2str "toMinutes") [durv ms] = Ok (VLong (Z.quot ms 60000)) /\
+  call_xfn (s2str "toHours") [durv ms] = Ok (VLong (Z.quot ms 3600000)) /\
+  call_xfn (s2str "toDays") [durv ms] = Ok (VLong (Z.quot ms 86400000)) /\
+  in_i64 (Z.quot ms 1000) = true /\ in_i64 (Z.quot ms 60000) = true /\
+  in_i64 (Z.quot ms 3600000) = true /\ in_i64 (Z.quot ms 86400000) = true.
+Proof.
+  intros H. destruct (dur_to_exact ms) as (A & B & C & D).
+  unfold call_xfn. cbn. unfold dur_method. cbn. rewrite A, B, C, D.
+  repeat split; try reflexivity; apply quot_in_i64; auto; lia.
+Qed.
+
+(* `<` `<=` `==` on datetime / duration compare the millisecond counts; == on any two extension
+   values is equality of the represented value *)
+Lemma rel_ext_exact a b :
+  rel_apply RLess (dtv a) (dtv b) = Ok (VBool (a <? b)) /\
+  rel_apply RLessEq (dtv a) (dtv b) = Ok (VBool (a <=? b)) /\
+  rel_apply RLess (durv a) (durv b) = Ok (VBool (a <? b)) /\
+  rel_apply RLessEq (durv a) (durv b) = Ok (VBool (a <=? b)).
+Proof. repeat split; reflexivity. Qed.
+
+Lemma eq_by_value (x y : ext) :
+  rel_apply REq (VExt x) (VExt y) = Ok (VBool true) <-> x = y.
+Proof.
+  cbn. rewrite <- ext_eq_by_value. destruct (ext_eqb x y); split; intros H; try reflexivity; try discriminate.
+Qed.
+
+(* ip: reflexivity of isInRange and separation of the families *)
+Lemma ip_in_range_refl a : ip_is_in_range a a = true.
+Proof. unfold ip_is_in_range. rewrite eqb_reflx, !N.leb_refl. reflexivity. Qed.
+
+Lemma ip_in_range_same_family a b : ip_is_in_range a b = true -> ip_v6 a = ip_v6 b.
+Proof. unfold ip_is_in_range. destruct (Bool.eqb (ip_v6 a) (ip_v6 b)) eqn:E; [intros _; apply eqb_prop; exact E|discriminate]. Qed.
+
+(* duration: whatever is accepted is in range *)
+Lemma dur_checked_op_in_range neg x y mul r : dur_checked_op neg x y mul = Some r -> in_i64 r = true.
+Proof.
+  unfold dur_checked_op. destruct (i64_max <? y); [discriminate|].
+  destruct (negb (in_i64 (y * mul))); [discriminate|].
+  destruct (in_i64 (if neg then x - y * mul else x + y * mul)) eqn:E; [|discriminate].
+  intros H; inversion H; subst; exact E.
+Qed.
